@@ -208,6 +208,8 @@ pub fn units(prop: &str, tier: Tier) -> Option<Vec<Unit>> {
                     .probes(NOPROBE)
                     .alarm(alarm)
                     .unit(),
+                // collect() into every Container flavour sees the same item sequence
+                Unit::Custom { name: "collect-container-flavours".into(), run: Box::new(move |cx| eng_inputs::run("collect-container-flavours", tier, cx)) },
                 e1("k02-separated-multibyte", "separated_by() templates on multi-byte text".into(), en::k02_sep(false)).alpha(&ABC, 4).kind(KindId::StrMb).alarm(alarm).unit(),
                 // the bounds / flags of a repetition are fields of the combinator value: they must survive its Clone
                 e1("k02-through-clone", "repeated()/separated_by() templates, every combinator value used through its own Clone impl (original dropped)".into(), {
